@@ -52,6 +52,10 @@ static STATS_REGISTRY: Lazy<RwLock<HashMap<String, &'static Lazy<CacheStats>>>> 
 /// stats_registry::register("my_function", &MY_STATS);
 /// ```
 pub fn register(name: &str, stats: &'static Lazy<CacheStats>) {
+    #[cfg(feature = "verif")]
+    crate::verif::yield_point(4001, crate::verif::addr_of(&*STATS_REGISTRY), crate::verif::Acq::Exclusive, &|| !STATS_REGISTRY.is_locked());
+    #[cfg(feature = "verif")]
+    let _verif_held_1 = crate::verif::hold(crate::verif::addr_of(&*STATS_REGISTRY));
     let mut registry = STATS_REGISTRY.write();
     registry.insert(name.to_string(), stats);
 }
@@ -81,6 +85,10 @@ pub fn register(name: &str, stats: &'static Lazy<CacheStats>) {
 /// }
 /// ```
 pub fn get(name: &str) -> Option<CacheStats> {
+    #[cfg(feature = "verif")]
+    crate::verif::yield_point(4002, crate::verif::addr_of(&*STATS_REGISTRY), crate::verif::Acq::Shared, &|| !STATS_REGISTRY.is_locked_exclusive());
+    #[cfg(feature = "verif")]
+    let _verif_held_2 = crate::verif::hold(crate::verif::addr_of(&*STATS_REGISTRY));
     let registry = STATS_REGISTRY.read();
     registry.get(name).map(|stats| (**stats).clone())
 }
@@ -108,6 +116,10 @@ pub fn get(name: &str) -> Option<CacheStats> {
 /// }
 /// ```
 pub fn get_ref(name: &str) -> Option<&'static CacheStats> {
+    #[cfg(feature = "verif")]
+    crate::verif::yield_point(4003, crate::verif::addr_of(&*STATS_REGISTRY), crate::verif::Acq::Shared, &|| !STATS_REGISTRY.is_locked_exclusive());
+    #[cfg(feature = "verif")]
+    let _verif_held_3 = crate::verif::hold(crate::verif::addr_of(&*STATS_REGISTRY));
     let registry = STATS_REGISTRY.read();
     registry.get(name).map(|stats| &***stats)
 }
@@ -127,6 +139,10 @@ pub fn get_ref(name: &str) -> Option<&'static CacheStats> {
 /// println!("Registered functions: {:?}", functions);
 /// ```
 pub fn list() -> Vec<String> {
+    #[cfg(feature = "verif")]
+    crate::verif::yield_point(4004, crate::verif::addr_of(&*STATS_REGISTRY), crate::verif::Acq::Shared, &|| !STATS_REGISTRY.is_locked_exclusive());
+    #[cfg(feature = "verif")]
+    let _verif_held_4 = crate::verif::hold(crate::verif::addr_of(&*STATS_REGISTRY));
     let registry = STATS_REGISTRY.read();
     registry.keys().cloned().collect()
 }
@@ -145,6 +161,10 @@ pub fn list() -> Vec<String> {
 /// assert!(stats_registry::list().is_empty());
 /// ```
 pub fn clear() {
+    #[cfg(feature = "verif")]
+    crate::verif::yield_point(4005, crate::verif::addr_of(&*STATS_REGISTRY), crate::verif::Acq::Exclusive, &|| !STATS_REGISTRY.is_locked());
+    #[cfg(feature = "verif")]
+    let _verif_held_5 = crate::verif::hold(crate::verif::addr_of(&*STATS_REGISTRY));
     let mut registry = STATS_REGISTRY.write();
     registry.clear();
 }
@@ -174,6 +194,10 @@ pub fn clear() {
 /// }
 /// ```
 pub fn reset(name: &str) -> bool {
+    #[cfg(feature = "verif")]
+    crate::verif::yield_point(4006, crate::verif::addr_of(&*STATS_REGISTRY), crate::verif::Acq::Shared, &|| !STATS_REGISTRY.is_locked_exclusive());
+    #[cfg(feature = "verif")]
+    let _verif_held_6 = crate::verif::hold(crate::verif::addr_of(&*STATS_REGISTRY));
     let registry = STATS_REGISTRY.read();
     if let Some(stats) = registry.get(name) {
         stats.reset();
